@@ -38,6 +38,7 @@ type Clause struct {
 }
 
 type LoopContract struct {
+	NoVariant  string // non-empty: no decreases clause; the reason termination is assumed
 	Invariants []*Clause
 	Steps      []*Clause // two-state clauses checked on every back edge; prev(e) is e at the loop head
 	Decreases  *Clause
@@ -429,6 +430,12 @@ func (cs *ContractSet) line(cur **Contract, text, file string, ln int) error {
 				return err
 			}
 			lc.Decreases = &Clause{Kind: "decreases", E: e, Src: body, File: file, Line: ln}
+		case strings.HasPrefix(body, "terminates assumed"):
+			// no variant: termination of this loop rests on an assumption stated after "--" (recorded in the evidence)
+			lc.NoVariant = strings.TrimSpace(strings.TrimPrefix(strings.TrimPrefix(body, "terminates assumed"), " --"))
+			if lc.NoVariant == "" {
+				lc.NoVariant = "termination assumed"
+			}
 		default:
 			return fmt.Errorf("malformed loop clause %q", body)
 		}
